@@ -309,13 +309,14 @@ func HarnessC19Boundary() {
 	// left-overs of an earlier, interrupted run may lie next to the output (same name plus
 	// ".tmp"): whatever they hold, they are not the command's to read
 	stale := verifBool("stale-tmp-sibling")
+	verbose := verifBool("verbose") // the global flags only add output, never change the index
 	for mode := 0; mode < 2; mode++ {
 		out := verifTempPath([]string{"c19b_normal.updog", "c19b_big.updog"}[mode])
 		if stale {
 			verifMakeFile(out+".tmp", 2)
 		}
 		tag := []string{"C19 normal mode", "C19 --big mode"}[mode] + " around the 1000-record batch"
-		err := createCmd(&globalConfig{}, &createConfig{outputFile: out, inputFile: in, big: mode == 1})
+		err := createCmd(&globalConfig{verbose: verbose}, &createConfig{outputFile: out, inputFile: in, big: mode == 1})
 		verifAssert(err == nil, tag+": a well-formed CSV was rejected")
 		if err != nil {
 			return
